@@ -61,12 +61,14 @@ func Bases() []*Schema {
 			intf("Named", fld("name", N("String"))).D("things with a name"), intf("Node", fld("id", NN(N("ID")))),
 			obj("A", fld("id", NN(N("ID"))), fld("name", N("String")), fld("kid", N("A")), fld("peers", L(N("B")))).Impl("Named", "Node"),
 			obj("B", fld("name", N("String")), fld("color", N("Color"))).Impl("Named"),
-			obj("Ev", fld("name", N("String")), fld("n", N("Int"))),
+			obj("Ev", fld("name", N("String")), fld("n", N("Int"))).With(du("bare")),
 			uni("AB", "A", "B"),
 			{Kind: KEnum, Name: "Color", Values: []*EnumVal{{Name: "RED", Desc: "like a rose"}, {Name: "GREEN", Dirs: []DirUse{du("deprecated")}}, {Name: "BLUE"}}},
 			inp("Filter", ifld("min", NN(N("Int"))), ifldD("tag", N("String"), "dflt"), ifld("colors", L(NN(N("Color")))), ifld("sub", N("Filter"))),
 			scl("Date").D("a date"),
 			dir("tag", []string{"FIELD_DEFINITION", "OBJECT", "ENUM_VALUE", "INTERFACE"}, argD("names", L(N("String")), []interface{}{"x", "y"}), argD("n", N("Int"), 3)),
+			// a directive that declares NO arguments, used once: any argument given to it is undeclared
+			dir("bare", []string{"OBJECT", "INTERFACE", "UNION", "ENUM", "ENUM_VALUE", "INPUT_OBJECT"}),
 		}},
 		// S2 custom root names through a schema block with a directive
 		{Blocks: []*SchemaBlock{{Query: "Qy", Mutation: "Mu", Dirs: []DirUse{du("onschema", "v", 1)}}},
